@@ -59,5 +59,6 @@ def run(rep, tier, seed):
     rep.level = "exploration"
     rep.assume("A1", "A3", "A4", "A6", "A8")
     D.run_contracts(rep, "C17", [("contracts.ilp", "ilp")], tier)
+    D.run_static(rep, "C17", ("purity",))      # every per-call contract presupposes that results are functions of the arguments
     t3(rep, tier, seed)
     D.link_falsifier(rep)
